@@ -8,6 +8,7 @@
 import RevalModel.Impl.Ser
 import RevalModel.Lemmas.Sorted
 import RevalModel.Lemmas.Json
+import RevalModel.Lemmas.SerRange
 
 namespace Reval.C13
 open Ser
@@ -191,5 +192,18 @@ example : serialize (.structVariant ['E'] ['V'] [(['b'], .int IntKind.u8 2), (['
     = .ok (.map [(['V'], .map [(['a'], .vec [.bool true, .none]), (['b'], .int 2)])]) := by decide
 example : serialize (.map [(.int IntKind.u8 1, .unit)]) = .err (.ser []) := by decide
 example : serialize (.int IntKind.u128 (2 ^ 128 - 1)) = .err .numericOverflow := by decide
+
+
+/-- the image never holds a number outside the range of its `Value` variant — at every depth — and neither does any
+    outcome of `RuleSet::evaluate(&T)` computed from it (C13 composed with C01's `results_in_range`) -/
+theorem image_in_range (v : SerVal) (x : Value) (hb : v.bytesOK = true) (h : Ser.serialize v = .ok x) :
+    x.inRange = true := serialize_inRange hb h
+
+theorem evaluate_outcomes_in_range (env : Env) (he : env.InRange) (rules : List Expr) (input : SerVal)
+    (hb : input.bytesOK = true) (hl : ∀ e ∈ rules, e.litsInRange = true)
+    (out : List (Res Value) × St × List Event) (h : evaluate env rules input = .ok out) :
+    ∀ r ∈ out.1, ∀ v, r = .ok v → v.inRange = true := evaluate_inRange he rules input hb hl h
+
+example : (SerVal.struct "S".toList [("a".toList, .int IntKind.u64 (2 ^ 64 - 1)), ("b".toList, .bytes [0, 255])]).bytesOK = true := by decide
 
 end Reval.C13
